@@ -4,7 +4,7 @@ CONSTANTS Depth = 0
           RestartLen = 2
           MaxSize = 18
           BitmapSize = 34
-          Ids = {1, 2, 3, 4, 5}
+          Ids = {1, 2, 3, 4}
           Exts <- ExtsSmall
           Filters = {0, 1, 2, 33, 17}
           Limits = {0, 3}
